@@ -294,7 +294,7 @@ def gen_constraints(rng, d, prof):
     grids = list(prof.get('con_grids', ['control', 'integrator', 'point']))
     if m['kind'] == 'dc' and prof.get('roots', True) and 'control' in grids:
         grids.append('roots')
-    decis = s['x'] + s['u'] + s['vc'] + s['vcp']
+    decis = s['x'] + s['u'] + s['vc'] + s['vcp'] + (s['z'] if prof.get('z_in_constraints') else [])
     sig = decis + s['pc'] + s['pcp'] + [('t',)] + s['p'] + s['v']
     if rng.random() < prof.get('horizon_in_signals', 0.3):
         sig = sig + [('T',), ('t0',)]
@@ -321,7 +321,7 @@ def gen_constraints(rng, d, prof):
         offs = []
         use_off = (g == 'control') and rng.random() < prof.get('offset_prob', 0.0)
         if g == 'roots':
-            pool_dec = s['x'] + s['u']      # eval_at_integrator_root has no xq / v_states
+            pool_dec = s['x'] + s['u'] + (s['z'] if prof.get('z_in_constraints') else [])      # eval_at_integrator_root has no xq / v_states
             pool = pool_dec + s['pc'] + s['pcp'] + [('t',)] + s['p'] + s['v'] + s['vc'] + s['vcp']
         else:
             pool_dec, pool = decis, sig
